@@ -77,6 +77,7 @@ def variants(ck, rng, spec):
     out = [("sym", {}, None)]
     if rng.random() < 0.5: out.append(("NOSYM", {"NOSYM": True}, None))
     if rng.random() < 0.35: out.append(("noreduce", {"noreduce": True}, None))
+    if not ck.quick and rng.random() < 0.1: out.append(("skew", {"noreduce": True}, None))
     if rng.random() < 0.4: out.append(("strain", {}, "eps"))
     return out
 
@@ -161,9 +162,17 @@ def evaluate(ck, rng, spec, crys, mode, stats, coq_terms):
             report(ck, stats, "operation %d of crys.G does not keep the spins (no phase factor works)" % k,
                          dict(replay, rot=o["rot"], trans=[str(x) for x in o["trans"]], indexmap=o["perm"]), key="c18-spin")
             break
+    klass = None
+    if mode in ("noreduce", "skew"):
+        # cells the code did not reduce itself: classify the input (not the outcome)
+        if latt.pure_translations(view): klass = "c18-noreduce-nonprimitive"
+        elif len(latt.holohedry(view.g, 2)) != len(latt.holohedry(view.g, 1)): klass = "c18-noreduce-skewed"
+        if klass: stats[klass] = stats.get(klass, 0) + 1
+    replay["input_class"] = klass
     why = latt.py_check_group(view, ops)
     if why:
-        report(ck, stats, "crys.G is not a group modulo lattice translations: " + why, replay, key="c18-not-group")
+        report(ck, stats, "crys.G is not a group modulo lattice translations: " + why +
+               (" [cell given with noreduce=True is %s]" % klass.split("-")[-1] if klass else ""), replay, key=klass or "c18-not-group")
     # ---- direct evaluation, floats on the implementation --------------------------------------
     A, Ai = crys.lattice, crys.invlatt
     for o in ops:
@@ -229,7 +238,7 @@ def run_coq(ck, coq_terms, stats):
             if r[0] != 0:
                 report(ck, stats, "Coq checker rejects operation %d of crys.G: %s" % (r[0] - 1, OPDIAG.get(r[1], r[1])), replay, key="c18-coq-op-%d" % r[1])
             if r[2] != 0:
-                report(ck, stats, "Coq group checker: %s" % GRDIAG.get(r[2], r[2]), replay, key="c18-coq-group-%d" % r[2])
+                report(ck, stats, "Coq group checker: %s" % GRDIAG.get(r[2], r[2]), replay, key=replay.get("input_class") or "c18-coq-group-%d" % r[2])
             if r[3] != 0 or r[4] != 0:
                 report(ck, stats, "GroupOp.__mul__ / inv() differ from the model op_mul / op_inv (%d products, %d inverses)" % (r[3], r[4]),
                              replay, key="c18-coq-algebra")
@@ -260,14 +269,27 @@ def run(ck):
     for nm, spec in [(s.label, s) for s in latt.named_specs() if s.label in forced]:
         specs.append(spec)
     seen_forced = set()
+    # probes of the two classes of cells the code does not reduce itself (noreduce=True): non-primitive and sheared
+    o, h, q, i = Fr(0), Fr(1, 2), Fr(1, 4), Fr(1)
+    sq = [[i, o], [o, i]]
+    probe1 = latt.Spec("probe-square-nonprimitive", np.eye(2), sq, [[(o, o), (o, h), (q, q), (q, 3 * q)]], None, sq)
+    bcc = [s for s in latt.named_specs() if s.label == "bcc"][0]
+    Ub = [[i, o, o], [i, i, o], [-i, o, i]]
+    probe2 = latt.Spec("probe-bcc-sheared", bcc.A @ np.array([[float(x) for x in r] for r in Ub]),
+                       latt.fmat_mul(latt.fmat_T(Ub), latt.fmat_mul(bcc.g, Ub)), [[(o, o, o)]], None, latt.fmat_mul(bcc.Aq, Ub))
+    probes = {probe1.label, probe2.label}
+    specs += [probe1, probe2]
     for spec in specs:
-        vs = variants(ck, rng, spec)
+        vs = variants(ck, rng, spec) if spec.label not in probes else [("noreduce", {"noreduce": True}, None)]
         if spec.label in forced and spec.label not in seen_forced:
             seen_forced.add(spec.label)
             if not any(v[0] == "NOSYM" for v in vs): vs.append(("NOSYM", {"NOSYM": True}, None))
         base = None
         for mode, kw, strain in vs:
             if strain is None:
+                if mode == "skew":
+                    spec0 = spec
+                    spec, _U = latt.skew(rng, spec0)
                 try:
                     crys = latt.build(spec, **kw)
                 except Exception as e:
@@ -278,9 +300,11 @@ def run(ck):
                                   "reproduce": "Crystal(np.array(%r), %r, spins=%r%s)" % (spec.A.tolist(), [[list(map(float, u)) for u in ul] for ul in spec.basis],
                                                                                           spec.spins, "".join(", %s=%s" % kv for kv in kw.items()))},
                                  key="c18-nosym-2d" if (mode == "NOSYM" and spec.dim == 2) else "c18-construct-exception")
+                    if mode == "skew": spec = spec0
                     continue
                 view = evaluate(ck, rng, spec, crys, mode, stats, coq_terms)
                 if mode == "sym": base = (crys, view)
+                if mode == "skew": spec = spec0
             else:
                 if base is None or base[1] is None: continue
                 crys0, view0 = base
